@@ -564,6 +564,10 @@ func writeReplay(e *Eng, dir string, r ObResult, repo string) (string, bool) {
 		b.WriteString("the solver gave no model (unknown / timeout): no-failing-input-found\n")
 	}
 	path := base + ".txt"
+	if r.ctx != nil {
+		os.WriteFile(base+".smt2", []byte(buildQuery(r.ctx, r.idx, true, false)), 0o644)
+		fmt.Fprintf(&b, "\nSMT-LIB query of the obligation: %s.smt2\n", base)
+	}
 	os.WriteFile(path, []byte(b.String()), 0o644)
 	return path, confirmed
 }
